@@ -512,7 +512,9 @@ Definition count_len (n : nat) (l : list rvar) : nat :=
 
 (* _find_coordinate_variable(field_ncvar, field_groups, ncdim).
    [fixed = false]: the pinned code - the shortcut "a coordinate variable in the dimension's own
-   group" is taken before the proximal search (F11d) and the dimension basename is wrong (F11c). *)
+   group" is taken before the proximal search (F11d) and the dimension basename is wrong (F11c).
+   In the repaired code that variable is an ordinary proximal candidate (the farthest one) and
+   the shortcut is only reached when it is the data variable itself. *)
 Definition find_coord_gen (fixed : bool) (hash : str -> str) (has_groups : bool) (vars : list rvar)
            (field : list str * str) (dim : list str * str) : option (list str * str) :=
   let own := existsb (fun v => id_eqb (v_groups v, v_name v) dim &&
@@ -533,6 +535,8 @@ Definition find_coord_gen (fixed : bool) (hash : str -> str) (has_groups : bool)
     match first_longest None proximal with
     | Some v => Some (v_groups v, v_name v)
     | None =>
+        if own then Some dim          (* repaired code: only the data variable itself is in scope *)
+        else
         match first_shortest None lateral with
         | None => None
         | Some v =>
